@@ -58,3 +58,33 @@ Lemma exc_runs :
   run_linear 60 exc_prog [-3] = ([], OExit (-21)) /\
   fst (run_x86 10 2000 exc_code [-3]) = ([], OExit (-21)).
 Proof. repeat split; vm_compute; reflexivity. Qed.
+
+(* an AxCut program BEFORE linearization of the shape `shrink` produces for
+     def f(x, acc) { if x == 0 { acc } else { f(x - 1, acc + x) } }   def main(x) { f(x, 0) }
+   (main creates the return continuation and passes it; f invokes it); the model of the linearizer inserts the
+   substitutions and the (empty) closure environment, and its output meets every x86-side hypothesis of
+   C01_compile_correct_cf_partial *)
+Definition exc_named : prog :=
+  mkp [mkd (id_ "main" 0) [ib "x" 1]
+         (Literal 0 (id_ "z" 6)
+         (Create (id_ "a" 7) (Decl (id_ "_Cont" 0)) None
+            [(id_ "Ret" 0, [ib "r" 2], Exit (id_ "r" 2))]
+         (Call (id_ "f" 0) [ib "x" 1; ib "z" 6; cb "a" 7 "_Cont"])));
+       mkd (id_ "f" 0) [ib "x" 3; ib "acc" 4; cb "k" 5 "_Cont"]
+         (IfC Eq (id_ "x" 3) None
+            (Invoke (id_ "k" 5) (id_ "Ret" 0) (Decl (id_ "_Cont" 0)) [ib "acc" 4])
+            (Literal 1 (id_ "one" 8)
+            (Op (id_ "x" 3) Sub (id_ "one" 8) (id_ "x" 9)
+            (Op (id_ "acc" 4) Sum (id_ "x" 3) (id_ "y" 10)
+            (Call (id_ "f" 0) [ib "x" 9; ib "y" 10; cb "k" 5 "_Cont"])))))]
+      [t_cont] 10.
+Definition exc_named_code : list xcode :=
+  match x86_compile (linearize exc_named) 0 with Ok (cs, _, _) => cs | Err _ => [] end.
+Lemma exc_named_hypotheses :
+  prog_ok exc_named = true /\ cf_frag (linearize exc_named) = true /\ entry_int (linearize exc_named) = true /\
+  plain_names (linearize exc_named) = true /\ plain_types (linearize exc_named) = true /\
+  (exists n lc', x86_compile (linearize exc_named) 0 = Ok (exc_named_code, n, lc')) /\
+  asm_wf exc_named_code = None /\ code_small exc_named_code = true /\
+  run_named 100 exc_named [10] = ([], OExit 55) /\
+  fst (run_x86 10 2000 exc_named_code [10]) = ([], OExit 55).
+Proof. repeat split; try (vm_compute; reflexivity). eexists _, _. vm_compute. reflexivity. Qed.
